@@ -10,7 +10,7 @@
 use crate::canon::{batches_to_rows, cell_eq, multiset_eq, row_eq, Row};
 use crate::checks::dist::{dist_stmt, pq_ctx};
 use crate::data::{Cell, PqOpts, Scratch, Table, Ty};
-use crate::eng::{rt, run_sql, Outcome};
+use crate::eng::{rt, Outcome};
 use crate::qgen::{gen_db, GenQuery, SizeClass};
 use crate::report::{Report, Tier};
 use crate::rng::Rng;
@@ -311,7 +311,7 @@ pub fn run_c35(tier: Tier, seed: u64) -> i32 {
                     let mut qrng = rng.fork((n_nodes * 1000 + qi) as u64);
                     let q = dist_stmt(&mut qrng, &db);
                     let sql = q.engine_sql();
-                    let want = match run_sql(&reference, &sql) {
+                    let want = match crate::eng::run_sql_async(&reference, &sql).await {
                         Outcome::Ok(a) => a,
                         _ => {
                             rep.inconclusive("reference-context-refuses-statement");
